@@ -284,6 +284,10 @@ structure Shape (cfgs : Cfgs) (ns : State) (stk : List SFrame) : Prop where
   bound : ∀ (j : Nat) (x : FS), ns.flows[j]? = some x → x.uid < ns.ctr
   snodup : (stk.map (·.uid)).Nodup
   known : ∀ fr ∈ stk, size fr.body ≠ 0 ∧ ∃ c, cfgs.find fr.name = some c ∧ c.elems = compile fr.body
+  findable : ∀ (j : Nat) (x : FS), ns.flows[j]? = some x → ∃ c, cfgs.find x.flowId = some c
+
+theorem toFS_flowId (fr : SFrame) : fr.toFS.flowId = fr.name := by
+  cases h : fr.callee <;> simp [SFrame.toFS, h]
 
 theorem quiet_completed (l : List FS) (x : FS) (h : x.status = .completed) : QuietFS l x := by
   left; rw [h]; decide
@@ -361,7 +365,18 @@ theorem shape_fell {cfgs : Cfgs} {ns : State} {top : SFrame} {rest : List SFrame
     have : top.toFS.uid = fr.toFS.uid := by rw [Option.some.inj hj]
     rw [toFS_uid, toFS_uid] at this
     exact hsn.1 (List.mem_map.2 ⟨fr, hfr, this.symm⟩)
-  refine ⟨?_, ?_, ?_, ?_, hsn.2, fun fr hfr => hS.known fr (List.mem_cons_of_mem _ hfr)⟩
+  refine ⟨?_, ?_, ?_, ?_, hsn.2, fun fr hfr => hS.known fr (List.mem_cons_of_mem _ hfr), ?_⟩
+  rotate_right
+  · intro j x hj
+    simp only [setAt] at hj
+    rw [get_set _ _ _ _ hlt] at hj
+    by_cases hji : j = idx
+    · rw [if_pos hji] at hj
+      rw [← Option.some.inj hj]
+      obtain ⟨_, c, hc, _⟩ := hS.known top (List.mem_cons_self ..)
+      exact ⟨c, hc⟩
+    · rw [if_neg hji] at hj
+      exact hS.findable j x hj
   · intro fr hfr
     obtain ⟨j, hj⟩ := hS.mem fr (List.mem_cons_of_mem _ hfr)
     refine ⟨j, ?_⟩
@@ -424,7 +439,25 @@ theorem shape_wait {cfgs : Cfgs} {lib : Lib} (hlib : LibOK cfgs lib) {ns : State
     obtain ⟨j, hj⟩ := hS.mem fr hfr'
     have := hS.bound j _ hj
     rwa [toFS_uid] at this
-  refine ⟨?_, ?_, ?_, ?_, ?_, ?_⟩
+  refine ⟨?_, ?_, ?_, ?_, ?_, ?_, ?_⟩
+  rotate_right
+  · intro j x hj
+    simp only [setAt] at hj
+    rw [get_set _ _ _ _ hlt'] at hj
+    by_cases hji : j = idx
+    · rw [if_pos hji] at hj
+      rw [← Option.some.inj hj, toFS_flowId]
+      obtain ⟨_, c, hc, _⟩ := hS.known top (List.mem_cons_self ..)
+      exact ⟨c, hc⟩
+    · rw [if_neg hji] at hj
+      by_cases hjl : j < ns.flows.length
+      · rw [List.getElem?_append_left hjl] at hj
+        exact hS.findable j x hj
+      · rw [List.getElem?_append_right (by omega)] at hj
+        obtain ⟨fr, hfr', rfl⟩ := List.mem_map.1 (List.mem_of_getElem? hj)
+        rw [toFS_flowId]
+        obtain ⟨_, c, hc, _⟩ := hlib fr.name fr.body (hfr fr hfr').2.2
+        exact ⟨c, hc⟩
   · intro fr hfr'
     simp only [setAt]
     rcases List.mem_append.1 hfr' with hf | hf
